@@ -864,3 +864,113 @@ Section RecRun.
     - apply HFl. exact Q3f.
   Qed.
 End RecRun.
+
+(** ------------------------------------------------------------------ *)
+(** * the start of a life, and reachable states *)
+
+Lemma restore_offsets alloc init : forall n bl seeds lasts,
+  restore_blocks alloc init n = (bl, seeds, lasts) ->
+  forall i x, nth_error bl i = Some x -> b_syncing x = b_written x /\ b_synced x = b_written x.
+Proof.
+  induction init as [|bs rest IH]; intros n bl seeds lasts H i x Hi; cbn in H.
+  - inv H. destruct i; discriminate.
+  - destruct (alloc (bs_loc bs) (bs_off bs)); [|inv H; destruct i; discriminate].
+    destruct (restore_blocks alloc rest (S n)) as [[bl' seeds'] lasts'] eqn:Er. inv H.
+    destruct i as [|i]; cbn in Hi; [inv Hi; cbn; auto|eapply IH; eauto].
+Qed.
+
+Lemma restart_offsets gm st i x : nth_error (blocks (fst (restart gm st))) i = Some x ->
+  b_syncing x = b_written x /\ b_synced x = b_written x.
+Proof.
+  unfold restart. destruct st as [[[oldest bl] h]|]; unfold pbl_new.
+  - destruct (restore_blocks _ bl 0) as [[bl' seeds] lasts] eqn:Er. cbn. eapply restore_offsets; eauto.
+  - cbn. destruct i; discriminate.
+Qed.
+
+Section RecReach.
+  Variable g : geo.
+  Variable base : medium irec.
+  Hypothesis Hg65 : length (g_locs g) < 65536.
+  Hypothesis Hndg : NoDup (g_locs g).
+  Hypothesis Hbase : base_ok g base.
+
+  Let p0 := fst (restart (geom g) (m_state base)).
+  Let nb := length (blocks p0).
+
+  Variable Back : irec -> nat -> Prop.
+  Hypothesis Back_same : forall r r0 a, r_key r = r_key r0 -> r_off r = r_off r0 -> r_size r = r_size r0 ->
+    Back r0 a -> Back r a.
+  (** what the base medium promises for every base record that seed-resolves at the restart *)
+  Hypothesis HB : forall slot r a, In (slot, r) (m_index base) -> sres p0 r a ->
+    Back r a /\ exists b, nth_error (blocks p0) a = Some b /\ (r_off r + r_size r <= b_written b)%Z.
+  Variable BackE : irec -> Prop.
+  Hypothesis BackE_same : forall r r0, r_key r = r_key r0 -> r_off r = r_off r0 -> r_size r = r_size r0 ->
+    BackE r0 -> BackE r.
+  Hypothesis HBE : forall slot r, In (slot, r) (m_index base) -> In (r_seed r) (epochSeeds p0) -> BackE r.
+
+  Let old := map (fun e : nat * irec => r_seed (snd e)) (m_index base).
+  Let sd0 := epochSeeds p0.
+  Let tb0 := m_index base.
+
+  Lemma MR_init t0 : mrinv nb Back tb0 (cinit g base t0).
+  Proof.
+    destruct (restart_shape g (m_state base)) as (R1 & R2 & R3 & R4 & R5 & R6). fold p0 in R1, R2, R3, R4, R5, R6.
+    constructor; cbn [cinit cs_sys cs_log cs_ups cs_tbl cs_seeds cs_elast s_pbl init_sys]; fold p0.
+    - intros pos slot r H. destruct pos; discriminate.
+    - intros slot r Hin (j & e & L1 & L2 & L3).
+      set (a := Z.to_nat (Z.of_nat e - Z.of_N (r_bfl r))).
+      assert (Ha : (Z.of_nat e - Z.of_N (r_bfl r) = Z.of_nat a)%Z) by (unfold a; lia).
+      assert (Hs : sres p0 r a) by (exists j, e; auto).
+      destruct (HB _ _ _ Hin Hs) as (Bk & b & B1 & B2).
+      assert (Hlt : a < nb) by (apply nth_error_Some; unfold nb; congruence).
+      exists a. split; [|split].
+      + apply DES_iff. exists j, e. auto.
+      + exists a. split; [apply fab_nth|]. rewrite R3. split; [exact Hlt|].
+        intros b' _ Hb'. rewrite Nat.sub_0_r, B1 in Hb'. inv Hb'. split; [exact B2|].
+        destruct (restart_offsets _ _ _ _ B1) as [O1 O2]. rewrite O1, O2. intros e0 _. split; intros; exact B2.
+      + right. split; [exact Hlt|exact Bk].
+    - apply incl_refl.
+    - intros st [Hf|[k Hf]]; discriminate Hf.
+    - intros q st h H. destruct q; discriminate.
+  Qed.
+
+  (** the invariants of a reachable state of the life, together with its shadow *)
+  Record reachinv (t0 : N) (c : cst) : Prop := mkRI {
+    ri_sh : exists ch, sim c ch /\ SH g (cs_cur (cinit g base t0)) ch;
+    ri_rc : rcinv BackE old sd0 c;
+    ri_us : usz c;
+    ri_mr : mrinv nb Back tb0 c
+  }.
+
+  Lemma reachinv_run cfg t0 tr : forall c c', reachinv t0 c -> crun g cfg c tr = Some c' -> reachinv t0 c'.
+  Proof.
+    induction tr as [|e tr IH]; intros c c' RI H; cbn in H; [inv H; exact RI|].
+    destruct (cstep g cfg c e) as [c1|] eqn:Es; [|discriminate].
+    eapply IH; [|exact H]. clear IH H.
+    destruct RI as [(ch & Sm & HSH) RC U M].
+    assert (Htok : Forall2 A.tok_rel (A.abss c) (s_uploads (cs_sys c))).
+    { pose proof (A.ci_tok _ _ (sh_a _ _ _ HSH)) as T. destruct (sim_fields _ _ Sm) as (F1 & F2 & _).
+      unfold A.abss in *. rewrite F1, F2 in T. exact T. }
+    destruct (sim_step _ _ _ _ _ _ Htok Sm Es) as (ch1 & Hs1 & Sm1).
+    pose proof (SH_step _ _ _ _ _ _ Hg65 Hndg HSH Hs1) as HSH1.
+    pose proof (cstep_rcinv _ BackE_same _ _ _ _ _ _ _ RC Es) as RC1.
+    constructor.
+    - exists ch1. split; [exact Sm1|exact HSH1].
+    - exact RC1.
+    - exact (usz_step _ _ _ _ _ U Es).
+    - assert (Hcase : (forall k s ws, e <> CFinalize k s ws) \/ exists k s ws, e = CFinalize k s ws).
+      { destruct e; try (left; intros; discriminate). right. eauto. }
+      destruct Hcase as [Hne|(k & s & ws & ->)].
+      + exact (MR_step_other nb Back tb0 g cfg _ c ch c1 e Hne Sm HSH U M Es).
+      + exact (MR_step_fin nb Back Back_same tb0 BackE old sd0 g Hg65 cfg _ c ch c1 ch1 k s ws Sm HSH Sm1 HSH1 RC RC1 U M Es).
+  Qed.
+
+  Theorem creach_reachinv cfg t0 c : creach g cfg base t0 c -> reachinv t0 c.
+  Proof.
+    intros [tr H]. eapply reachinv_run; [|exact H]. constructor.
+    - exists (shinit g base t0). split; [apply sim_init|apply SH_init; auto].
+    - apply cinit_rcinv; auto. apply (proj1 Hbase).
+    - apply usz_init.
+    - apply MR_init.
+  Qed.
+End RecReach.
